@@ -71,10 +71,24 @@ class ScriptedRandom(random.Random):
         return self._log.next(k)
 
 
-class ScriptedGenerator:
-    """Duck-typed numpy-style generator: `.integers(lo, hi)` is scripted."""
+def _np_generator_base():
+    try:
+        import numpy as np
+        return np.random.Generator, np.random.PCG64
+    except Exception:
+        return object, None
+
+
+_NPGen, _NPBits = _np_generator_base()
+
+
+class ScriptedGenerator(_NPGen):
+    """A numpy `Generator` (a real subclass when numpy is there, else duck-typed) whose
+    `.integers(lo, hi)` is scripted."""
 
     def __init__(self, log: SourceLog):
+        if _NPBits is not None:
+            super().__init__(_NPBits(0))
         self._log = log
 
     def integers(self, low, high=None, **kw):
